@@ -711,7 +711,8 @@ func checkUPCEANReaderEnforces(c *Ctx, r *Report) {
 // ---- writers enforce ----
 
 func checkUPCEANWritersEnforce(c *Ctx, r *Report) {
-	r.Rule("M-CHECK-WRITER", "EAN-13/EAN-8/UPC-E encodeWithHints: the full-length arm verifies the supplied check digit and returns an error when it is wrong or not computable; the short arm appends strconv.Itoa(computed digit); other lengths are errors; non-digits are rejected before bars are produced", 9)
+	r.Rule("M-CHECK-WRITER", "EAN-13/EAN-8/UPC-E encodeWithHints: the full-length arm verifies the supplied check digit and returns an error when it is wrong or not computable; the short arm appends strconv.Itoa(computed digit); other lengths are errors; non-digits are rejected before bars are produced; the UPC-A writer hands \"0\" + the contents as given to the EAN-13 writer, so a supplied 12th digit is verified there", 10)
+	checkUPCADelegation(c, r, "M-CHECK-WRITER")
 	for _, t := range []struct {
 		recv        string
 		short, full int64
